@@ -29,7 +29,8 @@ DESCRIBE = {
               "(NamesFit), enum header = names numbered 0,1,2.. in table order (or plain ints when HDF5 refused the header)",
 }
 RULE = ("stores with 1..4 chromosomes (fixed and variable bins, with/without an extra bin column) x EVERY partial map of the "
-        "chromosomes into (their own names + a pool of short/long/numeric names) whose result is duplicate-free, incl. swaps "
+        "chromosomes into (their own names + a pool of 4 short/long/numeric names; quick tier: 3 pool names for 3 chromosomes, "
+        "2 for 4 chromosomes, integer encoding on a third of the 4-chromosome maps) whose result is duplicate-free, incl. swaps "
         "and identity entries, x enum and integer encodings; plus seeded random chains of 2..3 renamings, maps with keys that "
         "are not chromosomes, and the >64 KiB enum-header fallback; non-trivial = at least one chromosome changes its name; "
         "distinct by canonical JSON")
@@ -455,6 +456,8 @@ def cases(tier, rng):
     for n in (1, 2, 3, 4):
         layouts = ["fixed", "var"] if (n <= 3 or thorough) else ["var"]
         pool = POOL if n <= 3 else POOL[:3]
+        if not thorough:
+            pool = {1: POOL, 2: POOL, 3: POOL[:3], 4: POOL[1:3]}[n]  # quick tier: smaller name pools for 3 and 4 chromosomes
         for li, layout in enumerate(layouts):
             store = make_store(n, layout, extra_col=(n + li) % 2 == 0)
             for m in all_maps(store["names"], pool):
